@@ -343,6 +343,8 @@ int run(const Options& o)
     cfg.depth = o.quick() ? 3 : 5;
     if (o.quick())
         for (auto n : {"1.6.0", "1.9.1", "1.18.0-os", "2.18.0", "2.21.2"}) cfg.depth_override[n] = 4;
+    else
+        for (auto n : {"1.6.0", "1.18.0-os", "2.18.0", "2.21.2"}) cfg.depth_override[n] = 6;
     if (const char* e = getenv("VX_DEPTH")) { cfg.depth = atoi(e); cfg.depth_override.clear(); }
     cfg.deadline_abs = t0 + (o.deadline_s > 0 ? o.deadline_s : (o.quick() ? 280 : 3000));
     auto st = ex::explore<Dom>(o, cfg, rep, total);
